@@ -127,8 +127,6 @@ def wrap_real(r):
         return tuple(wrap_real(i) for i in r)
     if isinstance(r, list):
         return [wrap_real(i) for i in r]
-    if isinstance(r, _np.generic):
-        return r.item() if r.dtype.kind in "iubf" else r
     return r
 
 
@@ -270,6 +268,10 @@ class SymArray:
     @property
     def base(self):
         return self.vals.base
+
+    @property
+    def flags(self):
+        return self.vals.flags
 
     @property
     def real(self):
